@@ -28,6 +28,12 @@ func rng(property string, extra ...interface{}) *rand.Rand {
 // finish flushes evidence and fails the test process with status 1 when
 // violations were recorded.
 func finish(t *testing.T, r *ev.Rec) {
+	if t.Failed() && r.NViolations() == 0 {
+		// the test was ended by t.Fatalf / a failed harness assertion, not by a property violation: the shard's
+		// evidence must not count as a completed run (merge reports it as inconclusive)
+		r.Flush(false)
+		return
+	}
 	if r.Finish() {
 		t.Fail()
 	}
